@@ -119,6 +119,9 @@ func (w *vWorld) mkStmt(cols, nparams int) *PreparedStatement {
 			if info.outcome == 4 {
 				delivered = 2
 			}
+			if info.outcome == 5 {
+				delivered = 0
+			}
 			w.countersRight = append(w.countersRight, dw.Written() == delivered)
 		}()
 		row := make([]any, info.cols)
@@ -135,6 +138,8 @@ func (w *vWorld) mkStmt(cols, nparams int) *PreparedStatement {
 			return w.cbErr(errVerifExec)
 		case 2:
 			return dw.Complete("T")
+		case 5: // the statement function panics (the extended protocol recovers it)
+			panic("verif: the statement function panics")
 		case 4: // two rows, then complete
 			if err := dw.Row(row); err != nil {
 				return err
@@ -287,6 +292,8 @@ func vRowsOf(s *vStmtInfo) string {
 		return "C"
 	case 4:
 		return "DDC"
+	case 5:
+		return "E"
 	default:
 		return "DE"
 	}
@@ -379,6 +386,7 @@ func VerifH06b() {
 	// what the ParseFn may answer: 2 = error | one statement; 5 adds a statement
 	// without columns, zero statements and two statements (both errors in Parse)
 	w.parseMenu = vParam("PM", 2)
+	w.execMenu = vParam("EM", 2) // 6 adds: Complete only, row then error, two rows, and a panicking statement
 	ref := &vRef{stmts: map[string]*vStmtInfo{}, portals: map[string]*vRefPortal{}}
 	sawError, sawSkip := false, false
 	sawMulti := false
@@ -471,7 +479,10 @@ func VerifH06b() {
 				vAssert("execute-runs-statement-once", execs == 1)
 				vAssert("execute-runs-the-bound-statement", ran == p.stmt)
 				want = vRowsOf(p.stmt)
-				if p.stmt.outcome == 1 || p.stmt.outcome == 3 {
+				if p.stmt.outcome == 1 || p.stmt.outcome == 3 || p.stmt.outcome == 5 {
+					if p.stmt.outcome == 5 {
+						vReach("statement-panicked")
+					}
 					ref.skip = true
 					sawError = true
 				}
@@ -625,5 +636,62 @@ func VerifH05b() {
 	vAssert("wire-wellformed", vWireOK(w.conn.out))
 	if len(w.lastParse) == 2 && ranWant == 2 {
 		vReach("two-statements")
+	}
+}
+
+// ---------------------------------------------------------------------------
+// H06p — the session goes on after a statement function panicked (C06): the
+// unnamed statement (whose function panics, fails or completes — the solver's
+// choice) is bound; Execute, Sync, then one more portal operation (Bind,
+// Describe portal, Execute, Close portal — the solver's choice) and Sync. A
+// panic is one ErrorResponse like any failure; whatever the first Execute did,
+// the later operation gets its designated reply and the Sync its ReadyForQuery
+// (nothing stays locked or half-updated behind the failed call).
+// ---------------------------------------------------------------------------
+func VerifH06p() {
+	next := vChoose(4)
+	var op []byte
+	switch next {
+	case 0:
+		op = vMsgBytes('B', vCat(vCStr(nil), vCStr(nil), vU16(0), vU16(0), vU16(0)))
+	case 1:
+		op = vMsgBytes('D', vCat([]byte{'P'}, vCStr(nil)))
+	case 2:
+		op = vMsgBytes('E', vCat(vCStr(nil), vU32(0)))
+	default:
+		op = vMsgBytes('C', vCat([]byte{'P'}, vCStr(nil)))
+	}
+	sync := vMsgBytes('S', nil)
+	input := vCat(vMsgBytes('E', vCat(vCStr(nil), vU32(0))), sync, op, sync)
+	w := vNewWorld(input, 64)
+	w.execMenu = 6
+	stmt := w.mkStmt(1, 0)
+	info := w.lastParse[0]
+	vAssume(info.outcome == 5 || info.outcome == 1 || info.outcome == 0)
+	vAssert("set-ok", w.ses.Statements.Set(w.ctx, "", stmt) == nil)
+	bind := vCat(vCStr(nil), vCStr(nil), vU16(0), vU16(0), vU16(0))
+	vAssert("bind-ok", w.ses.handleBind(w.ctx, &buffer.Reader{Msg: bind, MaxMessageSize: 64}, w.wr) == nil)
+	w.conn.out = nil
+	got, err := w.step()
+	vAssert("connection-stays-up", err == nil)
+	vAssert("first-execute-reply", got == vRowsOf(info))
+	got, err = w.step()
+	vAssert("sync-ready", err == nil && got == "Z")
+	got, err = w.step()
+	vAssert("connection-stays-up", err == nil)
+	switch next {
+	case 0:
+		vAssert("bind-after-a-failed-execute", got == "2")
+	case 1:
+		vAssert("describe-portal-after-a-failed-execute", got == "T")
+	case 2:
+		vAssert("execute-after-a-failed-execute", got == vRowsOf(info))
+	default:
+		vAssert("close-portal-after-a-failed-execute", got == "3")
+	}
+	got, err = w.step()
+	vAssert("second-sync-ready", err == nil && got == "Z")
+	if info.outcome == 5 {
+		vReach("statement-panicked")
 	}
 }
